@@ -44,62 +44,16 @@ THEOREMS = {
                          "C15_constant_to_enum_counterexample"],
     "fields_set_default": ["C15_fields_set_default_correct", "C15_fields_set_default_frame", "C15_fields_set_default_absent",
                            "C15_fields_set_default_order_independent"],
-    "hint_object": ["C15_hint_object_correct", "C15_hint_object_frame", "C15_hint_object_absent", "C15_hint_object_total_partial",
-                    "C15_hint_object_counterexample", "C15_hint_object_counterexample_reachable"],
+    "hint_object": ["C15_hint_object_correct", "C15_hint_object_frame", "C15_hint_object_absent", "C15_hint_object_total",
+                    "C15_hint_object_preFix_counterexample"],
     "sequences": ["C15_step", "C15_seq", "C15_seq_untouched", "C15_process"],
 }
 MODELLED_NO_THEOREM = ["unspec (modelled for C05, under correspondence; not one of C15's transformations: no C15 theorem, "
                        "sequences containing it are outside C15_seq)"]
 ALL_THEOREMS = [P + t for ts in THEOREMS.values() for t in ts]
 
-PROPOSED = os.path.join(WORK, "proposed_findings_C15.json")
 # quirks for which the Lean model cannot be expected to reproduce the real output
 MODEL_EXCUSED = {"seq/as-value-shared"}
-
-S1 = '(schemas (schema "p" (smeta "" "" "") "" (bad "" (meta false nil (hints))) (objects '
-PROPOSED_FINDINGS = [
-    ("rename_object/from-differs-in-case",
-     "rename_object accepts the object case-insensitively (EqualFold) but rewrites only references whose name equals `from` exactly: with `from: p.foo` the object p.Foo is renamed and every reference p.Foo is left dangling (also: a dangling reference spelled exactly as `from` is rewritten although no object was renamed)"),
-    ("rename_object/refs-outside-visitor-positions",
-     "rename_object rewrites `ref` nodes at Visitor positions only: constant references, references in map index types and in the disjunction kept in a struct's hints keep the old name"),
-    ("rename_object/collision-overwrites",
-     "rename_object onto a name that exists (or two case-variant objects renamed at once): the schema is rebuilt with Objects.Set, one of the two objects is silently lost"),
-    ("replace_reference/drops-meta",
-     "replace_reference builds a fresh ast.NewRef: Nullable, Default and hints of the replaced reference are dropped"),
-    ("replace_reference/refs-outside-visitor-positions",
-     "replace_reference does not reach references in map index types / disjunctions kept in struct hints"),
-    ("duplicate_object/source-exact-match",
-     "duplicate_object looks the source up by exact name (LocateObjectByRef) while every other transformation matches names with EqualFold: a source given in another letter case silently does nothing"),
-    ("duplicate_object/overwrites-existing",
-     "duplicate_object onto an existing name replaces that object (Objects.Set) instead of adding one"),
-    ("add_object/overwrites-existing",
-     "add_object ('adds a new object') replaces an existing object of that name in place"),
-    ("retype_field/first-match-only",
-     "retype_field stops at the first matching field (break) while matching is case-insensitive: a second case-variant field of the same object is not retyped (omit_fields / fields_set_* treat all of them)"),
-    ("prefix/enum-member-names-rewritten",
-     "PrefixObjectsNames ('adds the given prefix to every object's name') also rewrites every enum MEMBER name to UpperCamelCase(prefix)+UpperCamelCase(name)"),
-    ("prefix/entrypoint-string-stale",
-     "PrefixObjectsNames prefixes the entry point type but not the Schema.EntryPoint name, which keeps naming an object that no longer exists"),
-    ("prefix/refs-outside-visitor-positions",
-     "PrefixObjectsNames does not reach references in map index types / disjunctions kept in struct hints"),
-    ("trim_enum_values/enums-outside-visitor-positions",
-     "trim_enum_values does not reach enums used as map index types"),
-    ("constant_to_enum/drops-meta",
-     "constant_to_enum builds a fresh ast.NewEnum: Nullable, Default and hints of the constant's type are dropped"),
-    ("hint_object/nil-hints-panic",
-     "hint_object writes into object.Type.Hints without checking for a nil map: an object whose type came from a YAML `as:` (retype_object / add_object) makes Passes.Process panic"),
-    ("seq/as-value-shared",
-     "retype_object / retype_field / add_fields assign the very same Type value (same kind pointers) to every case-variant match (add_object: to every schema of the package); a later PrefixObjectsNames rewrites the shared reference / enum once per holder (p.Bar becomes p.XXBar)"),
-]
-
-
-def proposed_entries(pinned):
-    out = []
-    for q, what in PROPOSED_FINDINGS:
-        out.append({"id": "C15/" + q, "property": "C15", "what": what,
-                    "match": r"\tFAIL \S+ explained-by=\S*" + re.escape(q) + r"(\+|\s|$)",
-                    "pinned_input": pinned.get(q, "")})
-    return out
 
 
 def unmarked(request):
@@ -158,18 +112,7 @@ def main():
         th, quirk, req = line.split(" ", 2)
         wit.append((th, quirk, req))
         i += 1
-    pinned = {q: req for _, q, req in wit}
-    pinned["seq/as-value-shared"] = ('xform seq ((retype_object ((object "p.foo") (as (ref "p" "Bar" (meta false nil (hints ("<nil-map>" nil))))))) '
-                                     '(prefix ((prefix "X")))) ' + S1 +
-                                     '("Foo" (obj "Foo" (c) (scalar "string" nil (cs) (meta false nil (hints))) "p" "Foo")) '
-                                     '("foo" (obj "foo" (c) (scalar "bool" nil (cs) (meta false nil (hints))) "p" "foo")) '
-                                     '("Bar" (obj "Bar" (c) (scalar "string" nil (cs) (meta false nil (hints))) "p" "Bar")))))')
-    entries = proposed_entries(pinned)
-    os.makedirs(WORK, exist_ok=True)
-    with open(PROPOSED, "w") as fh:  # proposal for the coordinator; known_findings.json itself is never written
-        json.dump({"comment": "proposed C15 entries for /verif/known_findings.json (generated by checks/c15.py; pinned inputs of the Lean counterexample theorems come from `drv xform witness`)", "findings": entries}, fh, indent=1)
-    have = {f["id"] for f in c.known}
-    c.known += [f for f in entries if f["id"] not in have]
+    # findings come from /verif/known_findings.json only (loaded by Check); nothing is proposed or written here
     known_by_id = {f["id"]: f for f in c.known}
 
     def classify(row):
@@ -257,8 +200,8 @@ def main():
             c.oblige("witness of %s fails on the real code for the reason the theorem states (%s)" % (th, quirk), qs == [quirk],
                      row[2][:300] + " — if the code was fixed the model and the theorem must follow it")
     c.oblige("every counterexample theorem has a witness replayed on the real code",
-             {w[0] for w in wit} == {t for ts in THEOREMS.values() for t in ts if "counterexample" in t and t != "C15_hint_object_counterexample_reachable"},
-             sorted({t for ts in THEOREMS.values() for t in ts if "counterexample" in t} - {w[0] for w in wit}))
+             {w[0] for w in wit} == {t for ts in THEOREMS.values() for t in ts if "counterexample" in t and "preFix" not in t},
+             sorted({t for ts in THEOREMS.values() for t in ts if "counterexample" in t and "preFix" not in t} - {w[0] for w in wit}))
     # pinned inputs of findings that have no Lean witness
     extra = [f["pinned_input"] for f in c.known if f.get("pinned_input", "").startswith("xform ") and f["pinned_input"] not in [w[2] for w in wit]]
     if extra:
@@ -325,7 +268,6 @@ def main():
     c.cov["theorems_by_transformation"] = THEOREMS
     c.cov["modelled_without_theorem"] = MODELLED_NO_THEOREM
     c.cov["witnesses_replayed"] = len(wit)
-    c.cov["proposed_findings_file"] = PROPOSED
     c.finish("cd /verif/lean && lake build Cog.Props.C15 Cog.Xform.SpecAll Cog.Xform.Witness drv && lake env lean <#print axioms of the %d C15_* theorems>; harness xform-single / xform-seq / xform-eval / xform-strings vs drv `xform …`, `xform spec`, `xform pred`, `xform witness`" % len(ALL_THEOREMS),
              "random IR (shared generator: 1-2 packages (thorough 3), case-variant object and field names, cross-package references) + string constants and padded enum values; one transformation per case with generated parameters (targets present / absent / letter-case variant / other package / malformed reference string; `as:` types normalised to what YAML can denote), sequences of 2-4 (thorough 2-8) transformations each aimed at what the previous ones really produced; non-trivial = the real result differs from the input; distinct by (request, reply)")
 
